@@ -101,6 +101,9 @@ pub open spec fn r_max(a: real, b: real) -> real { if a < b { b } else { a } }
     ensures a == (r_quot(a, m) as real) * m + r_rem(a, m), r_abs(r_rem(a, m)) < r_abs(m), a >= 0real ==> r_rem(a, m) >= 0real, a <= 0real ==> r_rem(a, m) <= 0real {}
 // ---- num_traits::Float / approx on the model scalar (external crates; contracts trusted: A3, A4)
 pub uninterp spec fn r_finite(x: real) -> bool;
+pub uninterp spec fn r_epsilon() -> real;
+pub uninterp spec fn r_min_positive() -> real;
+pub uninterp spec fn r_max_value() -> real;
 impl Sc {
     #[verifier::external_body] pub fn sqrt(self) -> (r: Sc) ensures r@ == r_sqrt(self@) { unimplemented!() }
     #[verifier::external_body] pub fn sin(self) -> (r: Sc) ensures r@ == r_sin(self@) { unimplemented!() }
@@ -116,13 +119,41 @@ impl Sc {
     #[verifier::external_body] pub fn min(self, other: Sc) -> (r: Sc) ensures r@ == r_min(self@, other@) { unimplemented!() }
     #[verifier::external_body] pub fn max(self, other: Sc) -> (r: Sc) ensures r@ == r_max(self@, other@) { unimplemented!() }
     #[verifier::external_body] pub fn is_finite(self) -> (r: bool) ensures r == r_finite(self@) { unimplemented!() }
+    // further num_traits::Float surface a change to the crate may reach for (A3): machine constants are uninterpreted reals of
+    // which only the sign / order facts every IEEE type satisfies are assumed
+    #[verifier::external_body] pub fn epsilon() -> (r: Sc) ensures r@ == r_epsilon(), r@ > 0real, r@ < 1real { unimplemented!() }
+    #[verifier::external_body] pub fn min_positive_value() -> (r: Sc) ensures r@ == r_min_positive(), r@ > 0real, r@ < r_epsilon() { unimplemented!() }
+    #[verifier::external_body] pub fn max_value() -> (r: Sc) ensures r@ == r_max_value(), r@ > 1000000real { unimplemented!() }
+    #[verifier::external_body] pub fn min_value() -> (r: Sc) ensures r@ == 0real - r_max_value() { unimplemented!() }
+    #[verifier::external_body] pub fn mul_add(self, a: Sc, b: Sc) -> (r: Sc) ensures r@ == self@ * a@ + b@ { unimplemented!() }
+    #[verifier::external_body] pub fn signum(self) -> (r: Sc) ensures r@ == (if self@ < 0real { 0real - 1real } else { 1real }) { unimplemented!() }
+    #[verifier::external_body] pub fn is_sign_negative(self) -> (r: bool) ensures self@ < 0real ==> r, self@ > 0real ==> !r { unimplemented!() }
+    #[verifier::external_body] pub fn is_sign_positive(self) -> (r: bool) ensures self@ > 0real ==> r, self@ < 0real ==> !r { unimplemented!() }
+    #[verifier::external_body] pub fn is_nan(self) -> (r: bool) ensures r_finite(self@) ==> !r { unimplemented!() }
+    #[verifier::external_body] pub fn is_infinite(self) -> (r: bool) ensures r_finite(self@) ==> !r { unimplemented!() }
+    #[verifier::external_body] pub fn hypot(self, other: Sc) -> (r: Sc) ensures r@ == r_sqrt(self@ * self@ + other@ * other@) { unimplemented!() }
     #[verifier::external_body] pub fn const_180_over_pi() -> (r: Sc) ensures r@ == 180real / r_pi() { unimplemented!() }
     #[verifier::external_body] pub fn const_pi_over_180() -> (r: Sc) ensures r@ == r_pi() / 180real { unimplemented!() }
     #[verifier::external_body] pub fn const_two_pi() -> (r: Sc) ensures r@ == r_pi() * 2real { unimplemented!() }
 }
 // `Float::sqrt(x)` path form
 pub struct Float {}
-impl Float { #[verifier::external_body] pub fn sqrt(x: Sc) -> (r: Sc) ensures r@ == r_sqrt(x@) { unimplemented!() } }
+impl Float {
+    #[verifier::external_body] pub fn sqrt(x: Sc) -> (r: Sc) ensures r@ == r_sqrt(x@) { unimplemented!() }
+    #[verifier::external_body] pub fn abs(x: Sc) -> (r: Sc) ensures r@ == r_abs(x@) { unimplemented!() }
+    #[verifier::external_body] pub fn recip(x: Sc) -> (r: Sc) ensures r@ == 1real / x@ { unimplemented!() }
+    #[verifier::external_body] pub fn sin(x: Sc) -> (r: Sc) ensures r@ == r_sin(x@) { unimplemented!() }
+    #[verifier::external_body] pub fn cos(x: Sc) -> (r: Sc) ensures r@ == r_cos(x@) { unimplemented!() }
+    #[verifier::external_body] pub fn tan(x: Sc) -> (r: Sc) ensures r@ == r_tan(x@) { unimplemented!() }
+    #[verifier::external_body] pub fn sin_cos(x: Sc) -> (r: (Sc, Sc)) ensures r.0@ == r_sin(x@), r.1@ == r_cos(x@) { unimplemented!() }
+    #[verifier::external_body] pub fn asin(x: Sc) -> (r: Sc) ensures r@ == r_asin(x@) { unimplemented!() }
+    #[verifier::external_body] pub fn acos(x: Sc) -> (r: Sc) ensures r@ == r_acos(x@) { unimplemented!() }
+    #[verifier::external_body] pub fn atan(x: Sc) -> (r: Sc) ensures r@ == r_atan(x@) { unimplemented!() }
+    #[verifier::external_body] pub fn atan2(y: Sc, x: Sc) -> (r: Sc) ensures r@ == r_atan2(y@, x@) { unimplemented!() }
+    #[verifier::external_body] pub fn min(a: Sc, b: Sc) -> (r: Sc) ensures r@ == r_min(a@, b@) { unimplemented!() }
+    #[verifier::external_body] pub fn max(a: Sc, b: Sc) -> (r: Sc) ensures r@ == r_max(a@, b@) { unimplemented!() }
+    #[verifier::external_body] pub fn epsilon() -> (r: Sc) ensures r@ == r_epsilon(), r@ > 0real, r@ < 1real { unimplemented!() }
+}
 
 // ---- A4: approx comparisons on the model scalar with default tolerances (uninterpreted; only the facts below are assumed)
 pub uninterp spec fn s_ulps_eq(a: Sc, b: Sc, eps: Sc, max_ulps: u32) -> bool;
